@@ -41,7 +41,7 @@ def record(ctx, drv, only=None):
     trace = os.path.join(ctx.scratch, "c20.ndjson")
     with open(trace, "w") as f:
         for b in blocks:
-            f.write(json.dumps(dict(ev="reset", key=b["key"], kind=b["kind"], cfg=b["cfg"])) + "\n")
+            f.write(json.dumps(dict(ev="reset", key=b["key"], kind=b["kind"], cfg=b["cfg"], classes=b.get("classes") or [])) + "\n")
             for x in per[b["key"]]:
                 f.write(x + "\n")
             f.write(json.dumps(dict(ev="end", key=b["key"], n=len(per[b["key"]]))) + "\n")
@@ -100,13 +100,17 @@ def stuck_bit_control(ctx, trace, blocks):
     off = {"aead": 0 if b["cfg"].get("variant") == "NO_PREFIX" else 5, "stream": 1, "keyid": 0}[b["kind"]]
     pos = off + ctx.rng.randrange(4)
     bit = ctx.rng.randrange(8)
+    # either in every call, or only in the calls of ONE input class (then only that sub-history is rejected)
+    only_cls = None
+    if b.get("classes") and b["n"] // len(b["classes"]) >= 64 and ctx.rng.randrange(3) > 0:
+        only_cls = ctx.rng.choice(b["classes"])
     sub, on = [], False
     for line in open(trace):
         e = json.loads(line)
         if e["ev"] == "reset":
             on = e["key"] == b["key"]
         if on:
-            if e["ev"] == "emit":
+            if e["ev"] == "emit" and (only_cls is None or e.get("cls") == only_cls):
                 raw = bytearray.fromhex(e["out"])
                 raw[pos] &= 0xFF ^ (1 << bit)
                 e["out"] = raw.hex()
@@ -117,10 +121,11 @@ def stuck_bit_control(ctx, trace, blocks):
     got = (r.last_state or {}).get("l")
     bad = (r.last_state or {}).get("bad") or []
     # a cleared bit can also create a repeat in a short field only with negligible probability; the end event is the last line
-    if not r.invariant or got != len(sub) + 1 or not bad or "never changes" not in bad[0]:
-        ctx.infra("negative control (stuck bit %d of byte %d in %s) not rejected at the end event: %s l=%s bad=%s"
-                         % (bit, pos, b["key"], r.summary(), got, bad))
-    ctx.stage("NC:stuck bit", key=b["key"], byte=pos, bit=bit, rejected_at="end", diagnosis=bad)
+    if (not r.invariant or got != len(sub) + 1 or not bad or "never changes" not in bad[0]
+            or (only_cls is not None and ("input class " + only_cls) not in bad[2])):
+        ctx.infra("negative control (stuck bit %d of byte %d in %s, class %s) not rejected at the end event: %s l=%s bad=%s"
+                  % (bit, pos, b["key"], only_cls, r.summary(), got, bad))
+    ctx.stage("NC:stuck bit", key=b["key"], byte=pos, bit=bit, input_class=only_cls or "all", rejected_at="end", diagnosis=bad)
     ctx.log("negative control: stuck bit rejected at the end of the history (%s)" % bad[2])
 
 
@@ -129,7 +134,10 @@ def run(ctx):
                        "XChaCha20-Poly1305, X-AES-GCM; streaming AES-GCM-HKDF / AES-CTR-HMAC; HPKE with all 7 KEMs; ECIES over 3 curves x "
                        "point formats x DEMs; ECDSA, RSA-PSS, ML-DSA, SLH-DSA (fast sets), composite ML-DSA, JWT ES256/PS256; "
                        "Manager.Add / AddNewKeyFromParameters / NewHandle key ids; key generation of every key type) is called n times "
-                       "under one key (n = 512 quick / 4096 thorough; fewer where only no-repeat is claimed and a call is slow or large) "
+                       "under one key (n = 512 quick / 4096 thorough; fewer where only no-repeat is claimed and a call is slow or large), the "
+                       "inputs rotating through classes (plaintext / message / stream length 0, 1, 15, 16, 17, 100; AD / context nil, "
+                       "empty, short) with the monitors also run per class sub-history; key ids also across Delete (scripted redraw "
+                       "of a deleted id, AddKey requiring a deleted id) "
                        "across 2 OS processes x 2 handles x 2 primitive instances; every output is an event judged by TLC")
     ctx.assumptions += ["uniformity is checked through necessary conditions only (every bit toggles, every byte position shows "
                         ">= MinDistinct(n) values, XOR of two random regions of one output is itself random); a bias keeping all of "
@@ -169,7 +177,10 @@ MANIFEST = dict(
           "129 / 135 key histories). NoRepeat (IV/nonce/salt||IV/"
           "header/encapsulation/signature/generated key/(manager, key id)) is an invariant after every call; at the end of a "
           "history every bit of every uniform field must have toggled, every byte position must show >= MinDistinct(n) values, "
-          "and the XOR of two random regions of one output must itself look random."),
+          "and the XOR of two random regions of one output must itself look random. The calls rotate through input classes "
+          "(empty / 1 / 15 / 16 / 17 / 100-byte plaintexts, messages, streams; nil / empty / short AD); every class sub-history of "
+          ">= 64 calls is monitored on its own, so an input-dependent fast path that skips the draw is seen. Ids handed out by "
+          "one manager must stay pairwise distinct across Delete (a scripted draw of a deleted id must be re-drawn)."),
     note=("Conformance on sampled histories, not a proof. 'Uniformly distributed' is a distributional claim: the specification "
           "can only state NECESSARY conditions with a bounded false-alarm rate (< 2^-40 per run for a truly uniform source; "
           "calculation in Freshness.tla: union bound for repeats, exact occupancy recurrence for distinct byte values) and evaluate "
